@@ -503,8 +503,14 @@ impl Mp4Track {
             let first_sample_in_chunk = sample_id - (sample_id - first_sample) % samples_per_chunk;
 
             let mut sample_offset = 0u64;
-            for i in first_sample_in_chunk..sample_id {
-                sample_offset += self.sample_size(i)? as u64;
+            let stsz = &self.trak.mdia.minf.stbl.stsz;
+            if stsz.sample_size > 0 {
+                sample_offset =
+                    (sample_id - first_sample_in_chunk) as u64 * stsz.sample_size as u64;
+            } else {
+                for i in first_sample_in_chunk..sample_id {
+                    sample_offset += self.sample_size(i)? as u64;
+                }
             }
 
             chunk_offset
